@@ -370,32 +370,59 @@ def check_match_tiling(c, repo):
     bn = asg['before'][0]
     bv = bn.ast.value
     sb3 = slice_bounds(bv)
+    if sb3 is None and isinstance(bv, ast.Call) and stores.store_call(bv, f) == ('_before', 'read') and len(bv.args) == 1:
+        # before = <_before>.read(n) after <_before>.seek(0): a prefix of the pending text of length n.  n is evaluated (sa/minieval.py) for
+        # every combination of small lengths the caller's contract allows and compared with len(pending) - len(window) + searcher.start
+        from ..linear import Expander, clone
+        from ..minieval import Evaluator
+        seeks = [m for m in region if m.kind == 'stmt' and any(stores.store_call(k, f) == ('_before', 'seek') and k.args and is_const(k.args[0], 0) for k in node_calls(m))]
+        c.check(bool(seeks) and g.dominated_by(bn, set(seeks))[0], f, bn.ast, 'the pending text is read from its beginning (seek(0) before the read)', kind='path', tag='before-lo')
+        n_e = Expander(f, stale_ok=True).visit(clone(bv.args[0]))
+        fresh = f.params[2]
+        badpt, npts = None, 0
+        for P_ in range(0, 6):
+            for Wl_ in range(0, P_ + 1):
+                for fl_ in range(0, Wl_ + 1):
+                    for st_ in range(0, Wl_ + 1):
+                        env = {W: 'x' * Wl_, fresh: fl_, 'self.searcher.start': st_, 'self.searcher.end': st_}
+                        ev = Evaluator(env=env, hooks={'self.spawn._before.tell': lambda a_, e_, P_=P_: P_,
+                                                       'self.spawn._before.getvalue': lambda a_, e_, P_=P_: 'p' * P_}, what='do_search: length of before')
+                        got_n = ev.ev(n_e)
+                        npts += 1
+                        if got_n != P_ - Wl_ + st_ and badpt is None:
+                            badpt = (P_, Wl_, fl_, st_, got_n, P_ - Wl_ + st_)
+        c.check(badpt is None, f, bn.ast, 'before is the pending text up to the start of the match: its length is len(pending) - len(window) + searcher.start for every '
+                'combination of small lengths (%d evaluated)' % npts,
+                witness=None if badpt is None else 'len(pending)=%d len(window)=%d freshlen=%d searcher.start=%d: %d characters are handed out, expected %d' % badpt,
+                kind='alg', tag='before-hi')
+        sb3 = 'evaluated'
     c.need(sb3 is not None, 'before is not a slice: %s' % norm(bn.ast))
-    base_t = ct(bv.value)
-    c.check(base_t.endswith('._before.getvalue()'), f, bn.ast,
-            'before is cut from the untrimmed pending text (_before.getvalue())', witness='base is %s' % base_t,
-            kind='alg', tag='before-base')
-    lo3, hi3, st3 = sb3
-    c.check((lo3 is None or is_const(lo3, 0)) and st3 is None, f, bn.ast, 'before starts at offset 0', kind='alg', tag='before-lo')
-    c.need(hi3 is not None, 'before slice has no upper bound')
-    P = Lin(0, {'len(%s)' % base_t: 1})
-    Wl = Lin(0, {'len(%s)' % W: 1})
-    want = P - Wl + start_l
-    got = lin(hi3, f)
-    c.need(got is not None, 'upper bound of before is not linear: %s' % norm(hi3))
-    if got == want:
-        c.ok(f, bn.ast, 'before.hi == len(pending) - len(window) + searcher.start  [%r]' % got, kind='alg', tag='before-hi')
-    elif got == (want - P):
-        # negative form -(len(window) - start): equals the wanted bound only if it is non-zero
-        mag = Wl - start_l
-        c.bad(f, bn.ast,
-              'before is pending[0:-(len(window)-searcher.start)]: for a match that starts at the end of the '
-              'window (zero-width, e.g. `$`) the bound is -0 == 0 and before becomes empty -- the pending text is lost',
-              witness='magnitude %r has lower bound 0 (searcher.start <= len(window)); x[0:-0] == ""' % mag,
-              kind='alg', tag='before-hi-negzero')
-    else:
-        c.bad(f, bn.ast, 'before.hi must equal len(pending) - len(window) + searcher.start',
-              witness='found %r, wanted %r' % (got, want), kind='alg', tag='before-hi')
+    if sb3 != 'evaluated':
+        base_t = ct(bv.value)
+        c.check(base_t.endswith('._before.getvalue()'), f, bn.ast,
+                'before is cut from the untrimmed pending text (_before.getvalue())', witness='base is %s' % base_t,
+                kind='alg', tag='before-base')
+        lo3, hi3, st3 = sb3
+        c.check((lo3 is None or is_const(lo3, 0)) and st3 is None, f, bn.ast, 'before starts at offset 0', kind='alg', tag='before-lo')
+        c.need(hi3 is not None, 'before slice has no upper bound')
+        P = Lin(0, {'len(%s)' % base_t: 1})
+        Wl = Lin(0, {'len(%s)' % W: 1})
+        want = P - Wl + start_l
+        got = lin(hi3, f)
+        c.need(got is not None, 'upper bound of before is not linear: %s' % norm(hi3))
+        if got == want:
+            c.ok(f, bn.ast, 'before.hi == len(pending) - len(window) + searcher.start  [%r]' % got, kind='alg', tag='before-hi')
+        elif got == (want - P):
+            # negative form -(len(window) - start): equals the wanted bound only if it is non-zero
+            mag = Wl - start_l
+            c.bad(f, bn.ast,
+                  'before is pending[0:-(len(window)-searcher.start)]: for a match that starts at the end of the '
+                  'window (zero-width, e.g. `$`) the bound is -0 == 0 and before becomes empty -- the pending text is lost',
+                  witness='magnitude %r has lower bound 0 (searcher.start <= len(window)); x[0:-0] == ""' % mag,
+                  kind='alg', tag='before-hi-negzero')
+        else:
+            c.bad(f, bn.ast, 'before.hi must equal len(pending) - len(window) + searcher.start',
+                  witness='found %r, wanted %r' % (got, want), kind='alg', tag='before-hi')
     # before is computed from _before before _before is rebound
     rb = [m for m in region if m.kind == 'stmt' and (stmt_assigns_attr(m.ast, '_before') is not None or
                                                      (isinstance(m.ast, ast.Assign) and len(m.ast.targets) == 1 and isinstance(m.ast.targets[0], ast.Attribute)
